@@ -2,8 +2,9 @@
 """keep_seed.py <ID> <k> <detected: yes|no|partial> <how/which check output>  — store a confirmed seeded change under /verif/seeded/"""
 import sys, os, json, shutil, re
 ID, k, detected, how = sys.argv[1], sys.argv[2], sys.argv[3], sys.argv[4]
-src = f"/tmp/seed/out/{ID}/{k}"
-dst = f"/verif/seeded/{ID}-{k}"
+R = os.environ.get("ROUND", "1")
+src = f"/tmp/seed/out2/{ID}/{k}" if R == "2" else f"/tmp/seed/out/{ID}/{k}"
+dst = f"/verif/seeded/{ID}-r2-{k}" if R == "2" else f"/verif/seeded/{ID}-{k}"
 os.makedirs(dst, exist_ok=True)
 shutil.copy(src + "/patch.diff", dst + "/patch.diff")
 for name in ("demo", "demo.sh"):
@@ -22,16 +23,16 @@ conf = ""
 for log in sorted(os.listdir("/tmp/seed")):
     if log.startswith("confirm") and log.endswith(".log"):
         for line in open("/tmp/seed/" + log):
-            if line.startswith(f"RESULT {ID}/{k} "):
+            if line.startswith(f"RESULT {ID}/{k} ") and R == "1" or line.startswith(f"RESULT r{R} {ID}/{k} "):
                 conf = line.strip()
 out = {
     "property": ID,
     "summary": meta.get("summary", ""),
     "needs_to_manifest": meta.get("needs", ""),
     "failing_input": meta.get("failing_input", ""),
-    "origin": "independent sub-agent given only the property text and a scratch git worktree of /repo (nothing from /verif)",
+    "origin": "independent sub-agent given only the property text and a scratch git worktree of /repo (nothing from /verif)" + ("; round 2: additionally required to be correct on all small/ordinary inputs and wrong only on large or rare ones" if R == "2" else ""),
     "confirmed_by_me": {
-        "command": f"notes/confirm_seed.sh {ID} {k}  (scratch worktree: apply patch; cargo test --workspace --no-fail-fast --offline; run demo; undo; run demo)",
+        "command": f"ROUND={R} notes/confirm_seed.sh {ID} {k}  (scratch worktree: apply patch; cargo test --workspace --no-fail-fast --offline; run demo; undo; run demo)",
         "result": conf,
         "baseline_tests_md5": "6cc73c6778be",
         "meaning": "tests_md5 equal to the baseline = identical pass/fail set (247 pass + the 3 always-failing tests + doctests); demo exit 101/non-zero with the change, 0 without",
